@@ -308,6 +308,7 @@ class C37(Prop):
         'CylcModel.C37.eval_repr',
         'CylcModel.C37.eval_repr_unrepresentable',
         'CylcModel.C37.restart_spec',
+        'CylcModel.C37.cli_precedence',
         'CylcModel.C37.restarts_spec',
         'CylcModel.C37.accepted_storable',
         'CylcModel.C37.survive',
@@ -446,7 +447,7 @@ class C37(Prop):
         for t in BAD_TEXTS:
             yield self.mk([{'s': [('A', '1'), ('B', t)]}, {'s': [('B', t)]}, {}])
             yield self.mk([{'s': [('A', t)]}, {}])
-        n = {'quick': 2500, 'thorough': 50000, 'search': 25000}[tier]
+        n = {'quick': 1500, 'thorough': 30000, 'search': 15000}[tier]
         for _ in range(n):
             yield self.random_case(rng)
 
